@@ -112,7 +112,7 @@ def run_variant(v: Variant, sources: dict[str, str], pid: str, base_viol: set[st
         mutated = apply_edits(sources, v.edits)
     except EditError as ex:
         return 'skipped', str(ex), []
-    prog = Program(mutated)
+    prog = Program.from_sources(mutated)
     obs, _ctx, _sum = runner.run_rules(prog, pid, 'quick')
     viol, errs = _verdicts(obs)
     new_v = [o for o in obs if o.verdict == VIOLATED and o.key not in base_viol]
@@ -135,7 +135,7 @@ def run_for_property(pid: str, program: Program, seed: int = 0, say: Callable[[s
     from . import runner
     load_variants()
     sources = {m.path: m.source for m in program.modules.values()}
-    base_obs, _c, _s = runner.run_rules(Program(sources), pid, 'quick')
+    base_obs, _c, _s = runner.run_rules(Program.from_sources(sources), pid, 'quick')
     base_viol, base_err = _verdicts(base_obs)
     mine = [v for v in VARIANTS if pid in v.props]
     random.Random(seed).shuffle(mine)
@@ -174,7 +174,7 @@ def main(argv: list[str]) -> int:
             if not runner.rules_for(pid, 'quick'):
                 continue
             if pid not in base_cache:
-                bo, _c, _s = runner.run_rules(Program(sources), pid, 'quick')
+                bo, _c, _s = runner.run_rules(Program.from_sources(sources), pid, 'quick')
                 base_cache[pid] = _verdicts(bo)
             status, msg, _ = run_variant(v, sources, pid, *base_cache[pid])
             if status != 'ok':
